@@ -111,6 +111,8 @@ def _alphabet() -> Dict[str, Dict[str, Any]]:
     # a NON-FINITE intermediate (additive -inf masking before a softmax): its statistics are inf / nan
     op("inf_mask_softmax", "inf_mask_softmax", "F.softmax({h}.masked_fill(self.imask{i}, float('-inf')), dim=-1)",
        lambda h, m, i: ((h, g(m, "imask", i)), {}), ["self.register_buffer('imask{i}', torch.arange(D) % 4 == 3)"])
+    # a TWO-element intermediate (one statistic per batch row, B = 2), broadcast back
+    op("row_mean_gate", "row_mean_gate", "{h} * {h}.mean(dim=(1, 2), keepdim=True)", lambda h, m, i: ((h,), {}))
     op("with_zeros", "with_zeros", "{h} * self.zmask{i}", lambda h, m, i: ((h, g(m, "zmask", i)), {}),
        ["self.register_buffer('zmask{i}', (torch.arange(D) % 3 != 0).float())"])
     # ---- adds
@@ -329,6 +331,7 @@ class Semantics:
             "add_ones": lambda h: h + torch.ones_like(h),
             "index_rows": lambda h: h[:, torch.arange(S - 1, -1, -1)],
             "with_zeros": lambda h, z: h * z,
+            "row_mean_gate": lambda h: h * h.mean(dim=(1, 2), keepdim=True),
             "inf_mask_softmax": lambda h, z: F.softmax(h.masked_fill(z, float("-inf")), dim=-1),
             "view_inplace": lambda h: (h * 2.0) + (h * 2.0)[:, 0].unsqueeze(1),
         }
